@@ -270,10 +270,10 @@ pub fn monitor(tier: Tier) -> Monitor {
             "unknown filter IDs cannot be confirmed by liblzma (it refuses them too)".into(),
         ],
         families: vec![
-            Family { name: "check_ids", count: tier.pick(64 * 8, 64 * 400), priority: true, enumerated: false, run: fam_checks },
-            Family { name: "filters", count: tier.pick(600, 30_000), priority: false, enumerated: false, run: fam_filters },
-            Family { name: "reserved_bits", count: tier.pick(1500, 60_000), priority: false, enumerated: false, run: fam_reserved },
-            Family { name: "multi_stream", count: tier.pick(1500, 60_000), priority: false, enumerated: false, run: fam_multi },
+            Family { name: "check_ids", count: tier.pick(64 * 60, 64 * 2000), priority: true, enumerated: false, run: fam_checks },
+            Family { name: "filters", count: tier.pick(6_000, 150_000), priority: false, enumerated: false, run: fam_filters },
+            Family { name: "reserved_bits", count: tier.pick(15_000, 300_000), priority: false, enumerated: false, run: fam_reserved },
+            Family { name: "multi_stream", count: tier.pick(15_000, 300_000), priority: false, enumerated: false, run: fam_multi },
         ],
         label,
         floors,
